@@ -1,3 +1,293 @@
+/-
+  Props/C19.lean — property C19: reported connections are geometrically and kinematically what they claim.
+
+  Model: `Core/C19.lean` (hand model of connections/backends.py, polymorphic in the scalar field) with the closest-point
+  routine `Gen.C19.closestGen`, which is regenerated on every run by symbolically executing *all* paths of the current
+  `_closest_points_on_segments_2d`.  `K` is an arbitrary linearly ordered field (ℚ, ℝ, …): the theorems are about exact
+  arithmetic; float64 rounding is measured by the harness.  `cl` below is the traced routine plugged into the pipeline.
+  Squared quantities replace norms: `dv2 = |v_u − v_s|²`, `leTol dv2 tol ⇔ √dv2 ≤ tol` (`leTol_iff_sqrt`).
+-/
 import HitenModel.Lemmas.C19
-namespace HitenModel.C19
-end HitenModel.C19
+import HitenModel.Lemmas.C19Pairs
+import Mathlib.Analysis.Real.Sqrt
+
+namespace HitenModel.Props.C19
+open HitenModel HitenModel.C19 HitenModel.Gen.C19
+
+variable {K : Type} [Field K] [LinearOrder K] [IsStrictOrderedRing K]
+
+/-- the closest-point routine of the current source -/
+abbrev cl : ClosestFn K := closestGen
+
+/-! ### closest points of two segments -/
+
+/-- close one leaf of the traced decision tree: evaluate the hand model under the path conditions; when the source was
+refactored so that conditions no longer match syntactically, fall back to case analysis + linear arithmetic + `ring` -/
+syntax "c19_leaf" : tactic
+macro_rules
+  | `(tactic| c19_leaf) => `(tactic| first
+      | (simp only [closestST, firstStage, midStage, finalStage, clamp01, gt_iff_lt, *, ↓reduceIte, zero_mul, one_mul,
+           add_zero]; done)
+      | (simp only [closestST, firstStage, midStage, finalStage, clamp01, gt_iff_lt, *, ↓reduceIte, zero_mul, one_mul,
+           add_zero]
+         ring_nf at *
+         split_ifs <;> first
+           | rfl
+           | (exfalso; linarith)
+           | (simp only [Prod.mk.injEq]; (repeat' constructor) <;> ring)))
+
+syntax "c19_tree_split" : tactic
+macro_rules
+  | `(tactic| c19_tree_split) => `(tactic| first
+      | (refine ite_eq_iff'.mpr ⟨fun h => ?_, fun h => ?_⟩ <;> (try simp only [gt_iff_lt] at h) <;>
+          first | contradiction | c19_tree_split)
+      | (subst_vars; c19_leaf))
+
+set_option maxHeartbeats 2000000 in
+/-- **tie of the hand model to the source**: on every one of its syntactic paths the traced routine computes exactly
+what the hand model `closestCore` computes (all inputs, any ordered field) -/
+theorem closestGen_eq_closestCore (a0x a0y a1x a1y b0x b0y b1x b1y : K) :
+    closestGen a0x a0y a1x a1y b0x b0y b1x b1y = closestCore a0x a0y a1x a1y b0x b0y b1x b1y := by
+  have h10 : ¬ (1 : K) < 0 := not_lt.mpr zero_le_one
+  have h00 : ¬ (0 : K) < 0 := lt_irrefl _
+  have h11 : ¬ (1 : K) < 1 := lt_irrefl _
+  simp only [closestGen, closestCore]
+  generalize a1x - a0x = ux
+  generalize a1y - a0y = uy
+  generalize b1x - b0x = vx
+  generalize b1y - b0y = vy
+  generalize a0x - b0x = wx
+  generalize a0y - b0y = wy
+  generalize ux * ux + uy * uy = A
+  generalize ux * vx + uy * vy = B
+  generalize vx * vx + vy * vy = C
+  generalize ux * wx + uy * wy = D
+  generalize vx * wx + vy * wy = E
+  generalize hX : closestST A B C D E = X
+  c19_tree_split
+
+/-- the returned `(s,t)` satisfies the KKT conditions of the convex quadratic `|a₀ + s u − b₀ − t v|²` on `[0,1]²`
+(`A = u·u, B = u·v, C = v·v, D = u·w, E = v·w, w = a₀ − b₀`) — for all segment pairs, including `den = 0` -/
+theorem closest_points_kkt (a0x a0y a1x a1y b0x b0y b1x b1y : K) :
+    KKT ((a1x - a0x) * (a1x - a0x) + (a1y - a0y) * (a1y - a0y))
+        ((a1x - a0x) * (b1x - b0x) + (a1y - a0y) * (b1y - b0y))
+        ((b1x - b0x) * (b1x - b0x) + (b1y - b0y) * (b1y - b0y))
+        ((a1x - a0x) * (a0x - b0x) + (a1y - a0y) * (a0y - b0y))
+        ((b1x - b0x) * (a0x - b0x) + (b1y - b0y) * (a0y - b0y))
+        ((closestGen a0x a0y a1x a1y b0x b0y b1x b1y).1, (closestGen a0x a0y a1x a1y b0x b0y b1x b1y).2.1) := by
+  rw [closestGen_eq_closestCore]
+  exact closestCore_kkt a0x a0y a1x a1y b0x b0y b1x b1y
+
+/-- one-line convexity argument: a KKT point of `A s² − 2B s t + C t² + 2D s − 2E t` (positive semidefinite quadratic
+part) is a global minimiser over the unit square -/
+theorem kkt_implies_global_min {A B C D E : K}
+    (hQ : ∀ x y : K, 0 ≤ A * x * x - (B + B) * x * y + C * y * y) {st : K × K} (h : KKT A B C D E st)
+    {s' t' : K} (hs0 : 0 ≤ s') (hs1 : s' ≤ 1) (ht0 : 0 ≤ t') (ht1 : t' ≤ 1) :
+    A * st.1 * st.1 - (B + B) * st.1 * st.2 + C * st.2 * st.2 + (D + D) * st.1 - (E + E) * st.2
+      ≤ A * s' * s' - (B + B) * s' * t' + C * t' * t' + (D + D) * s' - (E + E) * t' :=
+  kkt_min hQ h hs0 hs1 ht0 ht1
+
+/-- **closest_points_optimal** (full strength, every pair of segments): the routine returns parameters in `[0,1]`,
+the points `P = a₀ + s(a₁−a₀)`, `Q = b₀ + t(b₁−b₀)` they denote, and no pair of points of the two closed segments is
+closer than `P, Q` -/
+theorem closest_points_optimal (a0x a0y a1x a1y b0x b0y b1x b1y : K) :
+    (0 ≤ (closestGen a0x a0y a1x a1y b0x b0y b1x b1y).1 ∧ (closestGen a0x a0y a1x a1y b0x b0y b1x b1y).1 ≤ 1 ∧
+      0 ≤ (closestGen a0x a0y a1x a1y b0x b0y b1x b1y).2.1 ∧ (closestGen a0x a0y a1x a1y b0x b0y b1x b1y).2.1 ≤ 1) ∧
+    ((closestGen a0x a0y a1x a1y b0x b0y b1x b1y).2.2.1, (closestGen a0x a0y a1x a1y b0x b0y b1x b1y).2.2.2.1)
+      = segPt (a0x, a0y) (a1x, a1y) (closestGen a0x a0y a1x a1y b0x b0y b1x b1y).1 ∧
+    ((closestGen a0x a0y a1x a1y b0x b0y b1x b1y).2.2.2.2.1, (closestGen a0x a0y a1x a1y b0x b0y b1x b1y).2.2.2.2.2)
+      = segPt (b0x, b0y) (b1x, b1y) (closestGen a0x a0y a1x a1y b0x b0y b1x b1y).2.1 ∧
+    ∀ s' t' : K, 0 ≤ s' → s' ≤ 1 → 0 ≤ t' → t' ≤ 1 →
+      d2 (segPt (a0x, a0y) (a1x, a1y) (closestGen a0x a0y a1x a1y b0x b0y b1x b1y).1)
+         (segPt (b0x, b0y) (b1x, b1y) (closestGen a0x a0y a1x a1y b0x b0y b1x b1y).2.1)
+        ≤ d2 (segPt (a0x, a0y) (a1x, a1y) s') (segPt (b0x, b0y) (b1x, b1y) t') := by
+  rw [closestGen_eq_closestCore]
+  exact closestCore_spec a0x a0y a1x a1y b0x b0y b1x b1y
+
+/-- non-vacuity / regression of the repaired `den = 0` branch: the parallel segments of DESIGN §6 row 18,
+`(0,0)-(1,0)` and `(5,1)-(1/2,1)`, now give distance² 1 (it was 26 before commit 6f518cc) -/
+example : (closestGen (0 : ℚ) 0 1 0 5 1 (1/2) 1) = (1/2, 1, 1/2, 0, 1/2, 1) := by
+  rw [closestGen_eq_closestCore]
+  norm_num [closestCore, closestST, firstStage, midStage, finalStage, clamp01]
+
+/-! ### results: velocity mismatch, limits, labels, order -/
+
+/-- the reported mismatch is the (squared) norm of the velocity difference of the two *reported* states -/
+theorem delta_v_is_velocity_mismatch (maxLen : K) (inp : Input K) :
+    ∀ c ∈ run cl maxLen inp, c.dv2 = sqDiff (vel c.stateU) (vel c.stateS) := by
+  intro c hc
+  obtain ⟨ij, _, hm⟩ := mem_run hc
+  exact (mkConn_some hm).2.2.2.2.1
+
+/-- `sqDiff ∘ vel` is the squared Euclidean norm of the velocity difference of two 6-D states -/
+theorem sqDiff_vel (x0 x1 x2 x3 x4 x5 y0 y1 y2 y3 y4 y5 : K) :
+    sqDiff (vel [x0, x1, x2, x3, x4, x5]) (vel [y0, y1, y2, y3, y4, y5])
+      = (x3 - y3) ^ 2 + (x4 - y4) ^ 2 + (x5 - y5) ^ 2 := by
+  simp [sqDiff, vel]
+  ring
+
+/-- every reported mismatch is within the requested limit, and the label is `ballistic` exactly when the mismatch is
+within the ballistic tolerance (`leTol x tol ⇔ 0 ≤ tol ∧ x ≤ tol²`) -/
+theorem within_limit_and_labelled (maxLen : K) (inp : Input K) :
+    ∀ c ∈ run cl maxLen inp,
+      (0 ≤ inp.dvTol ∧ c.dv2 ≤ inp.dvTol * inp.dvTol) ∧
+      (c.ballistic = true ↔ (0 ≤ inp.balTol ∧ c.dv2 ≤ inp.balTol * inp.balTol)) := by
+  intro c hc
+  obtain ⟨ij, _, hm⟩ := mem_run hc
+  have h := mkConn_some hm
+  refine ⟨(leTol_iff _ _).mp h.2.2.2.2.2.1, ?_⟩
+  rw [h.2.2.2.2.2.2.1]
+  exact leTol_iff _ _
+
+/-- over the reals the squared comparison is the comparison of the norm with the tolerance -/
+theorem leTol_iff_sqrt (x tol : ℝ) : leTol x tol = true ↔ Real.sqrt x ≤ tol := by
+  rw [leTol_iff, Real.sqrt_le_iff, pow_two]
+
+/-- over the reals: `|Δv| ≤ dv_tol`, and ballistic ⇔ `|Δv| ≤ bal_tol` -/
+theorem within_limit_and_labelled_real (maxLen : ℝ) (inp : Input ℝ) :
+    ∀ c ∈ run cl maxLen inp,
+      Real.sqrt c.dv2 ≤ inp.dvTol ∧ (c.ballistic = true ↔ Real.sqrt c.dv2 ≤ inp.balTol) := by
+  intro c hc
+  obtain ⟨h1, h2⟩ := within_limit_and_labelled maxLen inp c hc
+  rw [Real.sqrt_le_iff, Real.sqrt_le_iff, pow_two, pow_two]
+  exact ⟨h1, h2⟩
+
+/-- the result list is sorted by mismatch and is a permutation of the accepted connections (sorting loses nothing) -/
+theorem results_sorted (maxLen : K) (inp : Input K) :
+    (run cl maxLen inp).Pairwise (fun a b => a.dv2 ≤ b.dv2) ∧
+    (¬ (inp.pu.isEmpty ∨ inp.ps.isEmpty) → (run cl maxLen inp).Perm (unsorted cl maxLen inp)) := by
+  unfold run
+  split_ifs with h
+  · exact ⟨List.Pairwise.nil, fun h' => absurd h h'⟩
+  · exact ⟨sortConns_sorted _, fun _ => sortConns_perm _⟩
+
+/-! ### radius pairing: counts, prefix sums, fill -/
+
+/-- **prefix_sum_layout**: `_pair_counts`, `_exclusive_prefix_sum` and the fill loop of `_radpair2d` fit exactly: the
+pairs array (allocated uninitialised with `offs[-1]` rows) is written in every slot exactly once — no slot is left
+unwritten (`none`), none is overwritten or written out of bounds — and it is the row-major list of all in-radius pairs -/
+theorem prefix_sum_layout (query ref : List (Pt K)) (radius : K) :
+    radpair query ref radius = (allPairs (radius * radius) query ref).map some :=
+  radpair_eq query ref radius
+
+/-- the radius pairs the backend works with are exactly the index pairs at squared distance `≤ eps²` -/
+theorem radius_pairs_exact (inp : Input K) (i j : Nat) :
+    (i, j) ∈ pairsArr inp ↔
+      i < inp.pu.length ∧ j < inp.ps.length ∧ d2 (ptAt inp.pu i) (ptAt inp.ps j) ≤ inp.eps * inp.eps :=
+  mem_pairsArr inp i j
+
+/-! ### reported pairs -/
+
+/-- **reported_pairs_mutual_nearest_within_radius**: every reported connection pairs an unstable section point with a
+stable section point that lie within the search radius and are nearest neighbours of each other among *all* points of
+the other cloud -/
+theorem reported_pairs_mutual_nearest_within_radius (maxLen : K) (inp : Input K) :
+    ∀ c ∈ run cl maxLen inp,
+      c.iu < inp.pu.length ∧ c.is < inp.ps.length ∧
+      d2 (ptAt inp.pu c.iu) (ptAt inp.ps c.is) ≤ inp.eps * inp.eps ∧
+      (∀ j', j' < inp.ps.length → d2 (ptAt inp.pu c.iu) (ptAt inp.ps c.is) ≤ d2 (ptAt inp.pu c.iu) (ptAt inp.ps j')) ∧
+      (∀ i', i' < inp.pu.length → d2 (ptAt inp.pu c.iu) (ptAt inp.ps c.is) ≤ d2 (ptAt inp.pu i') (ptAt inp.ps c.is)) := by
+  intro c hc
+  obtain ⟨⟨i, j⟩, hij, hm⟩ := mem_run hc
+  obtain ⟨hiu, his, _⟩ := mkConn_some hm
+  simp only at hiu his
+  rw [hiu, his]
+  obtain ⟨hmem, hminj, hmini⟩ := mutualPairs_spec inp.pu inp.ps (pairsArr inp) i j hij
+  obtain ⟨hi, hj, hr⟩ := (mem_pairsArr inp i j).mp hmem
+  refine ⟨hi, hj, hr, ?_, ?_⟩
+  · intro j' hj'
+    by_cases hin : d2 (ptAt inp.pu i) (ptAt inp.ps j') ≤ inp.eps * inp.eps
+    · exact hminj j' ((mem_pairsArr inp i j').mpr ⟨hi, hj', hin⟩)
+    · exact hr.trans (not_le.mp hin).le
+  · intro i' hi'
+    by_cases hin : d2 (ptAt inp.pu i') (ptAt inp.ps j) ≤ inp.eps * inp.eps
+    · exact hmini i' ((mem_pairsArr inp i' j).mpr ⟨hi', hj, hin⟩)
+    · exact hr.trans (not_le.mp hin).le
+
+/-- "pairs one … with one …": no unstable index and no stable index is reported twice -/
+theorem reported_pairs_one_to_one (maxLen : K) (inp : Input K) :
+    ((run cl maxLen inp).map (·.iu)).Nodup ∧ ((run cl maxLen inp).map (·.is)).Nodup := by
+  unfold run
+  split_ifs with h
+  · simp
+  · have hp := sortConns_perm (unsorted cl maxLen inp)
+    rw [(hp.map _).nodup_iff, (hp.map _).nodup_iff]
+    obtain ⟨h1, h2⟩ := mutualPairs_nodup inp.pu inp.ps (pairsArr inp)
+    unfold unsorted
+    simp only []
+    constructor
+    · refine (filterMap_map_sublist (h := Prod.fst) ?_ _).nodup h1
+      intro ij c hm
+      exact (mkConn_some hm).1
+    · refine (filterMap_map_sublist (h := Prod.snd) ?_ _).nodup h2
+      intro ij c hm
+      exact (mkConn_some hm).2.1
+
+/-- the local segment partner used by the refinement is the (first) nearest other point of the same cloud -/
+theorem nearest_neighbor_spec (pts : List (Pt K)) (i : Nat) (hi : i < pts.length) :
+    match (nnAll pts).getD i none with
+    | none => pts.length ≤ 1
+    | some j => j ≠ i ∧ j < pts.length ∧
+        ∀ k, k < pts.length → k ≠ i → d2 (ptAt pts i) (ptAt pts j) ≤ d2 (ptAt pts i) (ptAt pts k) :=
+  nnAll_spec pts i hi
+
+/-- **refined meeting point and reported states.**  A connection is reported either *unrefined* (`seg = none`: a cloud
+has a single point, so no local segment exists, or the segment is longer than `maxLen`): then the point is the unstable
+section point and the states are the two section states; or *refined* (`seg = some (u1, s1, s, t)`): then `u1`, `s1`
+are the nearest neighbours of the paired points inside their own clouds, `s, t ∈ [0,1]`, the reported point is the
+midpoint of `P = pu[iu] + s (pu[u1] − pu[iu])` and `Q = ps[is] + t (ps[s1] − ps[is])`, no two points of the two closed
+local segments are closer than `P` and `Q`, and the reported states are the section states interpolated at the same
+`s` and `t` -/
+theorem refined_point_is_midpoint_of_closest_points (maxLen : K) (inp : Input K) :
+    ∀ c ∈ run cl maxLen inp,
+      match c.seg with
+      | none => c.point = ptAt inp.pu c.iu ∧ c.stateU = stAt inp.Xu c.iu ∧ c.stateS = stAt inp.Xs c.is
+      | some (u1, s1, s, t) =>
+          (nnAll inp.pu).getD c.iu none = some u1 ∧ (nnAll inp.ps).getD c.is none = some s1 ∧
+          0 ≤ s ∧ s ≤ 1 ∧ 0 ≤ t ∧ t ≤ 1 ∧
+          c.point = (((segPt (ptAt inp.pu c.iu) (ptAt inp.pu u1) s).1 + (segPt (ptAt inp.ps c.is) (ptAt inp.ps s1) t).1) / 2,
+                     ((segPt (ptAt inp.pu c.iu) (ptAt inp.pu u1) s).2 + (segPt (ptAt inp.ps c.is) (ptAt inp.ps s1) t).2) / 2) ∧
+          (∀ s' t' : K, 0 ≤ s' → s' ≤ 1 → 0 ≤ t' → t' ≤ 1 →
+            d2 (segPt (ptAt inp.pu c.iu) (ptAt inp.pu u1) s) (segPt (ptAt inp.ps c.is) (ptAt inp.ps s1) t)
+              ≤ d2 (segPt (ptAt inp.pu c.iu) (ptAt inp.pu u1) s') (segPt (ptAt inp.ps c.is) (ptAt inp.ps s1) t')) ∧
+          c.stateU = lerp s (stAt inp.Xu c.iu) (stAt inp.Xu u1) ∧ c.stateS = lerp t (stAt inp.Xs c.is) (stAt inp.Xs s1) := by
+  intro c hc
+  obtain ⟨⟨i, j⟩, hij, hm⟩ := mem_run hc
+  obtain ⟨hiu, his, _, _, _, _, _, hcase⟩ := mkConn_some hm
+  simp only at hiu his
+  rcases hcase with ⟨hv, _, _, hseg, hpt, hsu, hss⟩ | ⟨_, hseg, hpt, hsu, hss⟩
+  · obtain ⟨iu, js, hnu, hns, hr⟩ := refineOne_valid hv
+    rw [hr] at hseg hpt hsu hss
+    simp only at hseg hpt hsu hss hnu hns
+    rw [hseg, hiu, his]
+    have hopt := closest_points_optimal (ptAt inp.pu i).1 (ptAt inp.pu i).2 (ptAt inp.pu iu).1 (ptAt inp.pu iu).2
+      (ptAt inp.ps j).1 (ptAt inp.ps j).2 (ptAt inp.ps js).1 (ptAt inp.ps js).2
+    obtain ⟨⟨b1, b2, b3, b4⟩, hP, hQ, hmin⟩ := hopt
+    simp only [Prod.mk.eta] at hP hQ hmin
+    refine ⟨hnu, hns, b1, b2, b3, b4, ?_, hmin, hsu, hss⟩
+    rw [hpt, ← hP, ← hQ]
+    simp only [half_mul]
+  · rw [hseg, hiu, his]
+    exact ⟨hpt, hsu, hss⟩
+
+/-! ### non-vacuity: concrete clouds on which the pipeline reports refined, unrefined, ballistic and impulsive connections -/
+
+/-- three unstable and three stable lattice points, radius 3/2 -/
+def exInput : Input ℚ :=
+  { pu := [(0, 0), (1, 0), (2, 2)], ps := [(0, 1), (1, 1), (3, 3)],
+    Xu := [[0, 0, 0, 1, 0, 0], [1, 0, 0, 2, 0, 0], [2, 2, 0, 0, 1, 0]],
+    Xs := [[0, 1, 0, 1, 1, 0], [1, 1, 0, 2, 0, 3], [3, 3, 0, 0, 0, 0]],
+    tu := none, ts := some [4, 5, 6], eps := 3 / 2, dvTol := 5, balTol := 1 }
+
+example : (run cl 1000000000 exInput).map (fun c => (c.iu, c.is, c.seg.isSome, c.ballistic)) =
+    [(0, 0, true, true), (1, 1, true, false)] := by decide +kernel
+example : (run cl 1000000000 exInput).map (fun c => (c.dv2, c.point, c.ts)) =
+    [(1, (0, 1 / 2), 4), (9, (1, 1 / 2), 5)] := by decide +kernel
+/-- a single stable point: no local segment, the connection is reported unrefined -/
+example : (run cl 1000000000 { exInput with ps := [(0, 1)], Xs := [[0, 1, 0, 1, 1, 0]] }).map
+    (fun c => (c.iu, c.is, c.seg.isSome, c.point)) = [(0, 0, false, (0, 0))] := by decide +kernel
+/-- the fill of `_radpair2d` on the example: offsets 0,2,4,6 and six written slots -/
+example : radpair exInput.pu exInput.ps exInput.eps =
+    [some (0, 0), some (0, 1), some (1, 0), some (1, 1), some (2, 1), some (2, 2)] := by decide +kernel
+
+end HitenModel.Props.C19
